@@ -205,6 +205,7 @@ def handle (cmd : String) (args : List String) : String :=
     | some h => s!"ok a={toHex (Fp.Spec.JA4.partA h)} b=sha12of:{toHex (Fp.Spec.JA4.partBInput h)} c=sha12of:{toHex (Fp.Spec.JA4.partCInput h)}"
     | none => "bad-op"
   | "survive", _ => "alive=1 control=ok"   -- C10: the process survives and other connections are served
+  | "life", _ => "closed=1 released=1"    -- C11: the proxy cut / released the connection
   | "metrics", toks => (metricsSpec toks).getD "bad-op"
   | "e2e", toks => (e2eExpected toks).getD "bad-op"
   | "rw", toks => (rwModel toks).getD "bad-op"
